@@ -507,6 +507,7 @@ def check(run):
     # the helper that picks its own reference channel equals the primitive with that channel given: it ranks the columns of the matrix it returns a column of
     from . import c11 as _c11
     _c11.check_souden_wmwf(run, A)
+    _c11.check_ref_channel(run, A)
     run.explanation = (
         'get_bf_vector is specialised on each of the names it accepts (constant propagation through endswith / slicing / split / `in` tests prunes the if-chain); the primitives '
         'called on the surviving path, their order, the argument slots they are chained through and the returned value are compared with the composition the name spells. '
